@@ -33,6 +33,8 @@ func init() {
 			Old: "func (s *Session) process() {\n\tdefer func() {", New: "func (s *Session) process() {\n\ts.conn.Reader().Peek(1)\n\tif err := receive(s.logger, s.conn.Reader(), s.transport.Channels[:], s); err != nil {\n\t\treturn\n\t}\n\tdefer func() {", Expect: "R-GOROUTINE-RECOVER"},
 		&Mutant{Prop: "C07", Name: "c07-demuxer-no-per-item", File: "av/format/rtp/demuxer.go",
 			Old: "\tdefer func() {\n\t\tif r := recover(); r != nil {\n\t\t\tdemuxer.logger.Errorf(\"rtp demuxer: depacketize panic", New: "\tfunc() {\n\t\tif r := recover(); r != nil {\n\t\t\tdemuxer.logger.Errorf(\"rtp demuxer: depacketize panic", Expect: "R-PER-ITEM-CONTAINMENT"},
+		&Mutant{Prop: "C07", Name: "c07-handler-indexes-packet", File: "av/format/rtp/demuxer.go",
+			Old: "\t\t\tdemuxer.logger.Errorf(\"rtp demuxer: depacketize panic；r = %v \\n %s\", r, debug.Stack())", New: "\t\t\tdemuxer.logger.Errorf(\"rtp demuxer: depacketize panic；r = %v head=%x \\n %s\", r, packet.Data[:8], debug.Stack())", Expect: "R-PER-ITEM-CONTAINMENT"},
 		&Mutant{Prop: "C07", Name: "c07-cache-unchecked-index", File: "media/cache/h264cache.go",
 			Old: "\t\tfor len(rest) > 2 {", New: "\t\tfor len(rest) > 1 {", Expect: "R-SYNC-PATH-BOUNDS"},
 		&Mutant{Prop: "C07", Name: "c07-sps-decode-no-recover", File: "av/codec/hevc/vps.go",
@@ -383,6 +385,24 @@ func rulePerItemContainment(c *Ctx) {
 				}
 			}
 			if contained {
+				// the recover handler itself must not be able to panic on the offending item:
+				// no index/slice of packet-derived bytes in it unless it installs an inner recover first
+				if d := recoverDeferBefore(firstCall); d != nil {
+					if df := deferredFunc(d); df != nil {
+						inner := false
+						instrs(df, func(ins ssa.Instruction) {
+							if d2, ok := ins.(*ssa.Defer); ok && d2.Block() == df.Blocks[0] {
+								if f2 := deferredFunc(d2); f2 != nil && callsRecover(f2) {
+									inner = true
+								}
+							}
+						})
+						if acc := byteAccesses(p, df); len(acc) > 0 && !inner {
+							bad = true
+							c.Bad("per-item:"+fname(wl.fn), p.InstrPos(acc[0]), "the per-item recover handler in "+fname(e.Callee)+" itself indexes/slices the offending item's bytes without an inner recover: for an item shorter than that access the handler panics, the panic escapes the per-item frame and the goroutine-level recover ends the converter")
+						}
+					}
+				}
 				continue
 			}
 			// does it reach byte-indexing code?
